@@ -153,7 +153,7 @@ class Unit:
             elif d == "end":
                 pass
             elif d == "fn":
-                mm = re.match(r"(<[^>]+>::\w+|\S+)(?:\s*->\s*(\w+))?", arg)
+                mm = re.match(r"(<\w+ as [\w<>, ]+?>::\w+|\S+)(?:\s*->\s*(\w+))?\s*$", arg)
                 curfn = FnSpec(mm.group(1))
                 curfn.ret = mm.group(2)
                 curfn.props = list(self._defprops)
